@@ -267,6 +267,58 @@ func (e *Exec) monitorOrder(j *Judgement, events []*world.Event) {
 			}
 		}
 	}
+	// the re-sent configuration of a term is exactly the applied configuration the re-sync task read: nothing that was
+	// never applied, and - when the task went on to declare the target SYNCHRONIZED - nothing missing
+	type rs struct {
+		tgt      string
+		rc       *configapi.Configuration
+		sent     map[string]bool
+		allOK    bool
+		declared bool
+	}
+	resyncs := map[int64]*rs{}
+	for _, ev := range events {
+		if !strings.HasPrefix(ev.Task, "configuration:") {
+			continue
+		}
+		if ev.Kind == "dev.Set" && ev.ReadCfg != nil && ev.Dev != nil {
+			g := resyncs[ev.TaskSer]
+			if g == nil {
+				g = &rs{tgt: ev.Target, rc: ev.ReadCfg, sent: map[string]bool{}, allOK: true}
+				resyncs[ev.TaskSer] = g
+			}
+			if ev.Dev.Outcome != "applied" {
+				g.allOK = false
+			}
+			for _, op := range ev.Dev.Ops {
+				ps := op.P.String()
+				g.sent[ps] = true
+				pv := g.rc.Status.Applied.Values[ps]
+				switch {
+				case pv == nil:
+					j.add("master", []string{"C10", "C04"}, "master/resync-sends-what-was-not-applied", "target %s: the re-sync in term %d sent %s, which is not among the applied values it read (applied index %d)", ev.Target, ev.Dev.Election, ps, g.rc.Status.Applied.Index)
+				case pv.Deleted != op.Del || (!op.Del && ValOfAPI(&pv.Value) != op.V):
+					j.add("master", []string{"C10", "C04"}, "master/resync-sends-another-value", "target %s: the re-sync in term %d sent %s (delete=%v, %s) but the applied value it read is (delete=%v, %s)", ev.Target, ev.Dev.Election, ps, op.Del, op.V.Pretty(), pv.Deleted, ValOfAPI(&pv.Value).Pretty())
+				}
+			}
+		}
+		if ev.Kind == "cfg.UpdateStatus" && ev.OK && ev.Cfg != nil && ev.Cfg.Status.State == configapi.ConfigurationStatus_SYNCHRONIZED {
+			if g := resyncs[ev.TaskSer]; g != nil {
+				g.declared = true
+			}
+		}
+	}
+	for _, g := range resyncs {
+		e.C.Count("resyncs_compared_with_applied_values", 1)
+		if !g.declared || !g.allOK {
+			continue
+		}
+		for ps := range g.rc.Status.Applied.Values {
+			if !g.sent[ps] {
+				j.add("master", []string{"C10", "C04"}, "master/resync-incomplete", "target %s: the re-sync declared the target synchronized without having sent the applied value %s", g.tgt, ps)
+			}
+		}
+	}
 	for t, vs := range byVersion {
 		var versions []uint64
 		for v := range vs {
@@ -385,15 +437,28 @@ func (e *Exec) monitorMaster(j *Judgement, events []*world.Event) {
 	type ms struct {
 		term   uint64
 		master string
+		seq    int64
 	}
 	byVersion := map[string]map[uint64]ms{}
+	connTarget := map[string]string{} // connection id -> the target it leads to (environment truth)
+	relCreated := map[string]int64{}  // CONTROLS relation id -> sequence number of the call that created it
+	termConn := map[string]string{}   // target/election id -> the connection that carried a request in that term
+	foreign := map[string]bool{}      // relations of another onos-config node
 	for _, ev := range events {
 		switch {
+		case ev.Kind == "env.connect":
+			connTarget[ev.Note] = ev.Target
+		case ev.Kind == "env.foreign-relation":
+			foreign[ev.Note] = true
+		case ev.Kind == "topo.Create" && ev.OK:
+			if _, ok := relCreated[ev.Note]; !ok {
+				relCreated[ev.Note] = ev.StartSeq // taken before the call: the relation cannot have been visible earlier
+			}
 		case strings.HasPrefix(ev.Kind, "cfg.") && ev.OK && ev.Cfg != nil:
 			if byVersion[ev.Target] == nil {
 				byVersion[ev.Target] = map[uint64]ms{}
 			}
-			byVersion[ev.Target][ev.Cfg.Version] = ms{uint64(ev.Cfg.Status.Mastership.Term), ev.Cfg.Status.Mastership.Master}
+			byVersion[ev.Target][ev.Cfg.Version] = ms{uint64(ev.Cfg.Status.Mastership.Term), ev.Cfg.Status.Mastership.Master, ev.Seq}
 		case ev.Kind == "dev.Set" && ev.Dev != nil && ev.Dev.Outcome != "offline":
 			rc := ev.ReadCfg
 			if rc == nil {
@@ -407,6 +472,14 @@ func (e *Exec) monitorMaster(j *Judgement, events []*world.Event) {
 			if ev.Dev.ConnID != rc.Status.Mastership.Master {
 				j.add("master", props, "master/not-master-connection", "target %s: %s used connection %s but the master it read is %q", ev.Target, ev.Task, ev.Dev.ConnID, rc.Status.Mastership.Master)
 			}
+			if connTarget[ev.Dev.ConnID] != ev.Target {
+				j.add("master", props, "master/request-over-a-connection-to-another-target", "target %s: %s sent a request over connection %s, which leads to %q", ev.Target, ev.Task, ev.Dev.ConnID, connTarget[ev.Dev.ConnID])
+			}
+			tk := fmt.Sprintf("%s/%d", ev.Target, ev.Dev.Election)
+			if c, ok := termConn[tk]; ok && c != ev.Dev.ConnID {
+				j.add("master", props, "master/two-connections-in-one-term", "target %s: requests with election id %d travelled over %s and over %s", ev.Target, ev.Dev.Election, c, ev.Dev.ConnID)
+			}
+			termConn[tk] = ev.Dev.ConnID
 			if strings.HasPrefix(ev.Task, "proposal:") {
 				if rc.Status.State == configapi.ConfigurationStatus_SYNCHRONIZING || rc.Status.Applied.Mastership.Term != rc.Status.Mastership.Term {
 					j.add("master", []string{"C10", "C04"}, "master/push-before-resync", "target %s: %s sent a new change in term %d before the applied configuration was re-sent (state %s, applied term %d)", ev.Target, ev.Task, rc.Status.Mastership.Term, rc.Status.State, rc.Status.Applied.Mastership.Term)
@@ -440,7 +513,29 @@ func (e *Exec) monitorMaster(j *Judgement, events []*world.Event) {
 					e.C.Count("mastership_changes", 1)
 				}
 			}
+			if x.master != "" && (i == 0 || x.master != last.master) {
+				// an election: the master must be a CONTROLS relation of this node to this target that existed when it was chosen
+				e.C.Count("elections_checked", 1)
+				switch {
+				case foreign[x.master]:
+					j.add("master", props, "master/elected-relation-of-another-node", "target %s: %q, a relation of another onos-config node, became master in term %d", t, x.master, x.term)
+				case connTarget[x.master] == "":
+					j.add("master", props, "master/elected-unknown-relation", "target %s: %q became master in term %d but no connection of that name was ever opened", t, x.master, x.term)
+				case connTarget[x.master] != t:
+					j.add("master", props, "master/elected-relation-of-another-target", "target %s: %q, a connection to %s, became master in term %d", t, x.master, connTarget[x.master], x.term)
+				default:
+					if c, ok := relCreated[x.master]; !ok || c > x.seq {
+						j.add("master", props, "master/elected-before-relation-existed", "target %s: %q became master in term %d (write #%d) before its CONTROLS relation was created", t, x.master, x.term, x.seq)
+					}
+				}
+			}
 			last = x
+		}
+		if e.GoalReached && len(versions) > 0 {
+			// at the final state the master is the live connection (every target is connected by then)
+			if cur := e.W.Cur().Conns.Current(t); cur != "" && last.master != cur {
+				j.add("master", props, "master/final-master-is-not-the-live-connection", "target %s: at the final state the master is %q, the live connection is %q", t, last.master, cur)
+			}
 		}
 	}
 }
